@@ -59,6 +59,9 @@ THEOREMS = [
     'CpProofs.C19.parseAuth_serialised',
     'CpProofs.C19.digest_rfc2617_client',
     'CpProofs.C19.digest_rfc2617_client_wrong',
+    'CpProofs.C19.latin1_roundtrip',
+    'CpProofs.C19.tryDecodeHeader_latin1',
+    'CpProofs.C19.digest_rfc2617_client_latin1',
     'CpProofs.C19.tools_hooked',
     'CpProofs.C19.lifetime_default',
 ]
